@@ -183,7 +183,7 @@ func (g *storeGen) drop(id int) {
 	delete(g.tries, id)
 }
 
-func sameContent(a, b map[string]string) bool {
+func storeSameContent(a, b map[string]string) bool {
 	if len(a) != len(b) {
 		return false
 	}
@@ -199,7 +199,7 @@ func (g *storeGen) merge(t *gTrie) {
 	p := g.tries[t.parent]
 	g.emit("merge %d", t.id)
 	if !t.stale {
-		if !sameContent(p.content, t.content) {
+		if !storeSameContent(p.content, t.content) {
 			g.markStale(p.id) // the other children of p are stale now (t is dropped below)
 		}
 		p.content = t.content
